@@ -12,6 +12,7 @@ case $variant in
   v2) cc=gcc; flags="-O2 -g -DMYTH_VERIF" ;;
   va) cc=clang; flags="-O1 -g -fsanitize=address,undefined -fno-sanitize=signed-integer-overflow,alignment -fno-omit-frame-pointer -DMYTH_VERIF" ;;
   c0) cc=clang; flags="-O0 -g -DMYTH_VERIF" ;;
+  c2) cc=clang; flags="-O2 -g -DMYTH_VERIF" ;;
   n0) cc=gcc; flags="-O0 -g" ;;
 esac
 hs=$( (cat $VERIF/harness/*.c $VERIF/harness/*.h $VERIF/harness/*.S 2>/dev/null; cat $out/.hash) | sha1sum | cut -c1-16)
